@@ -129,7 +129,7 @@ Proof.
   - intros c given args G Iw E. unfold end_ok_w in E. apply opt_nat_eqb_eq in E.
     now apply (no_missing_of_end c given args).
   - intros c given [o|l] done cur fl got G Os Iw I; [|discriminate].
-    exact (one_steps cs ic c given o done cur fl got G Os Iw I).
+    exact (one_steps cs (mkP cs (Some ic) false) eq_refl (init_ctx ic) c given o done cur fl got G Os Iw I).
   - intros c given [o|l] args os G Os Iw V; [|discriminate].
     exact (one_vals cs c given o args os G Os Iw V).
   - intros c given [o|l] G Os; [|discriminate]. exact (one_clean c given o G Os).
